@@ -65,6 +65,10 @@ pub struct FaultyFlush {
     pub pct: u64,
     /// which operations get the transient error
     pub which: fn(&Op) -> bool,
+    /// the error hits device call 1..=max_k of the operation
+    pub max_k: u64,
+    /// issue the same operation again afterwards
+    pub retry: bool,
 }
 
 pub fn is_flush(op: &Op) -> bool {
@@ -85,8 +89,10 @@ impl crate::engine::StepSource for FaultyFlush {
         if self.pct > 0 && (self.which)(&s.op) && self.rng.below(100) < self.pct {
             // transient error somewhere inside this flush, then the caller simply tries again
             let retry = Step { c: s.c, op: s.op.clone(), hard_at: None, sticky: false };
-            s.hard_at = Some(self.rng.range(1, 12));
-            self.pending = Some(retry);
+            s.hard_at = Some(self.rng.range(1, self.max_k));
+            if self.retry {
+                self.pending = Some(retry);
+            }
         }
         Some(s)
     }
@@ -184,7 +190,7 @@ pub fn run_full(seed: u64, dense: bool, fault_pct: u64, prologue: bool) -> RunOu
     if prologue {
         prof.steps += 24;
     }
-    let mut g = FaultyFlush { g: Gen::new(r.next_u64(), prof), rng: Rng::new(seed ^ 0xFA17), pending: None, pct: fault_pct, which: is_flush };
+    let mut g = FaultyFlush { g: Gen::new(r.next_u64(), prof), rng: Rng::new(seed ^ 0xFA17), pending: None, pct: fault_pct, which: is_flush, max_k: 12, retry: true };
     if prologue {
         let cl = u64::from(cfg.vol.spc) * u64::from(cfg.vol.bps);
         rewrite_prologue(&mut r, cl, &mut g.g.queue);
